@@ -1,4 +1,5 @@
 import YgmVerif.Lemmas.Deliver
+import YgmVerif.Props.C04
 /-!
 # C01 — every async executes exactly once, on its destination, with its arguments
 
@@ -129,5 +130,27 @@ example : ((run 4 nhDemo St.init demo).map (fun s => (s.executed, quiescent s)))
 /-- executing a message on a rank it is not addressed to is not accepted -/
 example : (run 4 nhDemo St.init [.async 0 7 3 false, .isend 0 2, .recvBegin 2 0 0, .exec 2 7]).isNone = true := by
   decide
+
+end YgmVerif.Deliver
+
+/-! ### instantiation with the real routing function (C04) -/
+namespace YgmVerif.Deliver
+open YgmVerif
+
+/-- the routing schemes of comm_router.hpp make progress on every layout (`Router.route_progress`, C04) -/
+theorem router_progress (sch : Router.Scheme) (N p : Nat) (hp : 0 < p) :
+    Progress (N * p) (Router.nextHop sch p) (fun x d => Router.hopsLeft sch p x d) := by
+  intro r d hr hd hne
+  exact Router.route_progress sch hp hr hd hne
+
+/-- **C01 drain bound for the real router**: under NONE, NR and NLNR on every `N × p` layout no message
+circulates for ever -/
+theorem C01_drain_bounded_router (sch : Router.Scheme) (N p : Nat) (hp : 0 < p)
+    (ls0 : List Label) (s : St) (h0 : run (N * p) (Router.nextHop sch p) St.init ls0 = some s)
+    (ls : List Label) (hna : ∀ l ∈ ls, isAsync l = false) (s' : St)
+    (h : run (N * p) (Router.nextHop sch p) s ls = some s') :
+    ls.length + total (N * p) (fun x d => Router.hopsLeft sch p x d) s' ≤
+      total (N * p) (fun x d => Router.hopsLeft sch p x d) s :=
+  C01_drain_bounded (N * p) _ _ (router_progress sch N p hp) ls0 s h0 ls hna s' h
 
 end YgmVerif.Deliver
